@@ -153,8 +153,8 @@ CHECKS["C04"] = ("E3-puppet + E2-sim",
   "DESIGN.md §5 C04")
 CHECKS["C11"] = ("E2-sim",
   "seeded generation of multi-daemon, multi-transaction scenarios with random link faults, injected stray PDUs and replays on the real daemons; per-transaction identity oracle + routing + termination + health check",
-  "2-3 real daemons, 2..24 overlapping Puts in any direction and mode with per-transaction tagged contents and destinations, six families (loss-free; + strays; one lost datagram per directed link, with and without strays, where acknowledged Puts must still succeed; lossy + strays; strays + replay/reflection of an ended "
-  "transaction's PDUs; a burst of 120..320 datagrams handed to one daemon in one instant with the receive transaction polled late, so that its mailbox runs full); strays include responses that carry the sequence number of a live send transaction but a foreign source entity; in half of the scenarios all daemons number their transactions from the same value; one Put in five is fire-and-forget (the user drops the channel on which the id is answered). Put ids must be pairwise distinct; every success claim must show that transaction's own content at its own destination (cross-wiring is recognised by the tag); every indication must name a "
+  "2-3 real daemons, 2..24 overlapping Puts in any direction and mode with per-transaction tagged contents and destinations, eight families (loss-free; + strays; one lost datagram per directed link, with and without strays, where acknowledged Puts must still succeed; lossy + strays; strays + replay/reflection of an ended "
+  "transaction's PDUs; a burst of 120..320 datagrams handed to one daemon in one instant with the receive transaction polled late, so that its mailbox runs full; the complete to-receiver exchange of Put #0 delivered again, in order, 5..1400 ms after its receive transaction ended - mostly while the routing table still holds the ended transaction's channel - which exactly one new receive transaction must take and deliver again); strays include responses that carry the sequence number of a live send transaction but a foreign source entity; in half of the scenarios all daemons number their transactions from the same value; one Put in five is fire-and-forget (the user drops the channel on which the id is answered). Put ids must be pairwise distinct; every success claim must show that transaction's own content at its own destination (cross-wiring is recognised by the tag); every indication must name a "
   "transaction that exists at that entity; loss-free: every Put succeeds despite the strays; always: every transaction, including those started by strays, is gone at the end, no daemon stopped, and every daemon "
   "completes a fresh Put afterwards.",
   "Single-threaded deterministic scheduler (message orderings, seeded select! branches), not preemptive interleavings. Sampled: thousands of scenarios per run.",
